@@ -26,6 +26,16 @@
    object other than the current one (C13_all_live_objects, C13_other_objects_untouched); the correspondence check
    compares every live object of the implementation with the world at the end of each history, the oracle observes them
    after every step.
+   Round 5 — what belongs to the caller.  A `cworld` is a world plus the header's point count of the current LasData (a
+   counter that may be stale: LasData(header, points) with a header that counts other points — a reader chunk, a slice —,
+   header.point_count assigned), the flag "the VLR list was edited in place and not synchronised since", and the caller's
+   ExtraBytesParams objects.  Caller operations: CW (a world operation), CEditVlrs vl setter (the VLR list becomes vl — any
+   list: the list of another file with its extra-bytes VLR, duplicates, any order — through list methods or through the
+   vlrs setter, which synchronises), CSetCount, CRewrap idx cnt (LasData(header', points[idx]) without update_header),
+   CNewParam / CSetParam / CAddParams (the caller keeps, changes and passes its params objects).  Every live object keeps
+   its invariant over any such history (C13_caller_histories), the VLR part holds again after the add / remove that follows
+   an edit whatever was put in the list (C13_vlr_list_edited, C13_vlr_list_assigned), no operation reads the counter
+   (C13_point_count_not_read), the caller's params objects are passed by value (C13_params_by_value).
    Add also requires legal parameters (edim_okb: one of the 30 types, scaled or not, or an opaque array of 4..255
    bytes; name of 1..32 bytes, description of 0..32 bytes, no NUL); an Add outside that domain is refused by the model
    and is not compared with the implementation. *)
@@ -330,6 +340,93 @@ Theorem C13_failed_world_step : forall w o, snd (wstep w o) <> Ok tt -> (forall 
 Proof. exact wstep_failed. Qed.
 Print Assumptions C13_failed_world_step.
 
+(* ---- round 5: what belongs to the caller ---- *)
+(* after ANY history of the caller — adds, removes, assignments, round trips, selections and copies, with params objects the
+   caller keeps and changes, headers that count other points, VLR lists edited in place or assigned — every live LasData
+   satisfies its invariant: the current one always the base part (record length = standard + extra bytes, distinct legal
+   names), and the VLR part whenever its list is not in the caller's hands; the others the whole *)
+Theorem C13_caller_histories : forall ops c, CInv c -> cops_okb c ops = true -> CInv (crun c ops).
+Proof. exact crun_inv. Qed.
+Print Assumptions C13_caller_histories.
+
+Theorem C13_caller_histories_vlr : forall ops c, CInv c -> cops_okb c ops = true -> cw_dirty (crun c ops) = false ->
+  Inv2 (cw_cur (crun c ops)).
+Proof. exact crun_inv2. Qed.
+Print Assumptions C13_caller_histories_vlr.
+
+(* a successful add / remove / conversion gives the list back to the header *)
+Theorem C13_sync_clears_edit : forall c o, is_ok (snd (cstep c (CW (WOp o)))) = true -> op_syncs o = true ->
+  cw_dirty (fst (cstep c (CW (WOp o)))) = false.
+Proof. exact cstep_sync_clean. Qed.
+Print Assumptions C13_sync_clears_edit.
+
+(* the VLR list edited in place — ANY list vl: extended with the list of another file (its extra-bytes VLR next to the own
+   one), duplicates, three extra-bytes VLRs in a row, any order, the own one taken out —, then the next successful add /
+   remove / conversion: exactly one extra-bytes VLR describing the current dimensions (Inv), and every other record of the
+   caller's list is there, in the caller's order *)
+Theorem C13_vlr_list_edited : forall s vl o, InvB s -> op_okb (set_vlrs s vl) o = true -> op_syncs o = true ->
+  snd (step (set_vlrs s vl) o) = Ok tt ->
+  Inv (fst (step (set_vlrs s vl) o)) /\ filter not_eb (st_vlrs (fst (step (set_vlrs s vl) o))) = filter not_eb vl.
+Proof. exact edit_then_sync. Qed.
+Print Assumptions C13_vlr_list_edited.
+
+(* the list replaced through the vlrs setter: the same at once, and nothing else changes *)
+Theorem C13_vlr_list_assigned : forall s vl, InvB s ->
+  snd (assign_vlrs s vl) = Ok tt /\ Inv (fst (assign_vlrs s vl))
+  /\ st_fmt (fst (assign_vlrs s vl)) = st_fmt s /\ st_extras (fst (assign_vlrs s vl)) = st_extras s
+  /\ st_recs (fst (assign_vlrs s vl)) = st_recs s
+  /\ filter not_eb (st_vlrs (fst (assign_vlrs s vl))) = filter not_eb vl.
+Proof. exact assign_vlrs_inv. Qed.
+Print Assumptions C13_vlr_list_assigned.
+
+(* no operation reads the header's point count: histories that differ only in that counter — at the start, or by
+   assignments to it along the way — have the same outcomes and end in the same world, flag and params *)
+Theorem C13_point_count_not_read : forall a b o, same_but_count a b ->
+  same_but_count (fst (cstep a o)) (fst (cstep b o)) /\ snd (cstep a o) = snd (cstep b o).
+Proof. exact cstep_count_irrelevant. Qed.
+Print Assumptions C13_point_count_not_read.
+
+Theorem C13_point_count_irrelevant : forall ops a b, same_but_count a b -> same_but_count (crun a ops) (crun b ops).
+Proof. exact crun_count_irrelevant. Qed.
+Print Assumptions C13_point_count_irrelevant.
+
+Theorem C13_point_count_assignments_erased : forall ops c,
+  same_but_count (crun c ops) (crun c (filter (fun o => negb (is_count_op o)) ops)).
+Proof. exact crun_count_ops_erased. Qed.
+Print Assumptions C13_point_count_assignments_erased.
+
+(* after a successful add / remove / whole-record assignment the counter is the number of points *)
+Theorem C13_point_count_refreshed : forall c o, op_refreshes o = true -> is_ok (snd (cstep c (CW (WOp o)))) = true ->
+  cw_count (fst (cstep c (CW (WOp o)))) = len (st_recs (cw_cur (fst (cstep c (CW (WOp o)))))).
+Proof. exact cstep_count_refreshed. Qed.
+Print Assumptions C13_point_count_refreshed.
+
+(* the caller's params objects: making or changing one reaches no live object, and passing some of them is passing the
+   values they have at that moment *)
+Theorem C13_params_untouched : forall c o, is_param_write o = true ->
+  cw_w (fst (cstep c o)) = cw_w c /\ cw_count (fst (cstep c o)) = cw_count c /\ cw_dirty (fst (cstep c o)) = cw_dirty c.
+Proof. exact cstep_param_frame. Qed.
+Print Assumptions C13_params_untouched.
+
+Theorem C13_params_by_value : forall c idx ds, pick_params (cw_params c) idx = Some ds ->
+  cstep c (CAddParams idx) = cstep c (CW (WOp (Add ds))).
+Proof. exact cstep_add_params. Qed.
+Print Assumptions C13_params_by_value.
+
+(* no step of the caller reaches a LasData other than the current one *)
+Theorem C13_caller_other_objects : forall ops c, exists new, w_others (cw_w (crun c ops)) = w_others (cw_w c) ++ new.
+Proof. exact crun_others_kept. Qed.
+Print Assumptions C13_caller_other_objects.
+
+(* a caller's history made of world operations only is the world's history (so the theorems above speak about it) *)
+Theorem C13_caller_world : forall ops c, cw_w (crun c (map CW ops)) = wrun (cw_w c) ops.
+Proof. exact crun_plain. Qed.
+Print Assumptions C13_caller_world.
+
+Theorem C13_caller_start : forall w n ps, WInv w -> CInv (mkCW w n false ps).
+Proof. exact WInv_CInv. Qed.
+Print Assumptions C13_caller_start.
+
 (* a concrete history on point format 0, two records: add a scaled 3 x float64, an opaque 10-byte array (size with
    bit 3 set) and a uint64; assign 2^53+1 and 2^64-1; remove the middle one; refused removals (unknown, standard, a
    name given twice) change nothing; round trip; remove everything: no extra-bytes VLR is left *)
@@ -389,6 +486,26 @@ Example C13_nonvacuous :
       /\ map (field_of [99]) (st_recs (w_cur w)) = map Some (rev big)
       /\ map (fun s => map (fun r => len (rec_bytes r)) (st_recs s)) (w_others w) = [[52; 52]; [62; 62]; [38; 38]]
       /\ snd (wstep (mkW s1 []) (WSelect false [2])) = Err EIndex)
+  (* the caller: the VLR list of s1 ([foreign; own extra-bytes VLR]) is extended with the list of another file — its
+     extra-bytes VLR (one dimension, B) right after the own one, then the foreign record again, then the own one once more —;
+     the header announces 10 points for the 2 that are there; the caller keeps its params object, adds it, changes it, adds it
+     again: one extra-bytes VLR of 3 descriptors at the end, both foreign records, two points, the first addition unchanged *)
+  /\ (match eb_payload [B], st_vlrs s1 with
+      | Ok pb, [f; own] =>
+          let C2 := mkED [100] (TStd 4) (Some ([7], [8])) [] in
+          let C3 := mkED [101] (TStd 4) (Some ([9], [10])) [] in
+          let hist := [CEditVlrs [f; own; eb_vlr pb; f; own] false; CSetCount 10; CNewParam C2; CAddParams [0%nat];
+                       CSetParam 0 C3; CAddParams [0%nat]; CW (WNew RoundTrip)] in
+          let c := crun (mkCW (mkW s1 []) 2 false []) hist in
+          cops_okb (mkCW (mkW s1 []) 2 false []) hist = true
+          /\ st_extras (cw_cur c) = [A; C; C2; C3] /\ cw_count c = 2 /\ cw_dirty c = false
+          /\ map (fun v => (v_rid v, len (v_data v))) (st_vlrs (cw_cur c)) = [(7, 3); (7, 3); (4, 768)]
+          /\ map (fun r => len (rec_bytes r)) (st_recs (cw_cur c)) = [20 + 24 + 8 + 2 + 2; 20 + 24 + 8 + 2 + 2]
+          /\ cw_dirty (crun (mkCW (mkW s1 []) 2 false []) [CEditVlrs [own; own; f] true]) = false
+          /\ map v_rid (st_vlrs (cw_cur (crun (mkCW (mkW s1 []) 2 false []) [CEditVlrs [own; own; f] true]))) = [7; 4]
+          /\ cw_count (crun (mkCW (mkW s1 []) 2 false []) [CRewrap [1] None; CSetCount 10; CW (WOp (Remove [[97]]))]) = 1
+      | _, _ => False
+      end)
   (* a LasData made from a format that already has the two dimensions: the VLR is there, before the foreign one *)
   /\ (match init_ex 0 [A; C] [repeat 3 52%nat] [foreign] false with
       | Ok s5 => map (fun v => (v_rid v, len (v_data v))) (st_vlrs s5) = [(4, 384); (7, 3)]
